@@ -7,6 +7,22 @@ func solve3(coeff []float64) []float64 {
 	if aeq0(a) {
 		return solve2(coeff)
 	}
+	if d == 0 {
+		// zero is a root, the other roots are those of a*x^2 + b*x + c
+		return append(solve2([]float64{c, b, a}), 0)
+	}
+	// when the cubic coefficient is small compared to the quadratic one, b/3a is huge and the terms of the discriminant
+	// cancel catastrophically: the roots would be garbage. The polynomial d*y^3 + c*y^2 + b*y + a has the roots y = 1/x:
+	// solve that one instead, if it is better conditioned
+	if !aeq0(d) && math.Abs(b*d) > math.Abs(c*a) && math.Abs(b) > 1e3*math.Abs(a) {
+		var roots []float64
+		for _, y := range solve3([]float64{a, b, c, d}) {
+			if y != 0 {
+				roots = append(roots, 1/y)
+			}
+		}
+		return roots
+	}
 	b_over_3a := b / (3 * a)
 	c_over_a := c / a
 	d_over_a := d / a
@@ -41,9 +57,29 @@ func solve3(coeff []float64) []float64 {
 		}
 	}
 	for i := range roots {
-		roots[i] -= b_over_3a
+		roots[i] = polish(coeff, roots[i]-b_over_3a)
 	}
 	return roots
+}
+
+// polish improves a root with a few Newton iterations on the original polynomial: the closed formulas above lose
+// several digits to cancellation when the coefficients have very different magnitudes
+func polish(coeff []float64, x float64) float64 {
+	a, b, c, d := coeff[3], coeff[2], coeff[1], coeff[0]
+	fx := d + x*(c+x*(b+x*a))
+	for i := 0; i < 4 && fx != 0; i++ {
+		dfx := c + x*(2*b+x*3*a)
+		if dfx == 0 {
+			break
+		}
+		y := x - fx/dfx
+		fy := d + y*(c+y*(b+y*a))
+		if !(math.Abs(fy) < math.Abs(fx)) {
+			break
+		}
+		x, fx = y, fy
+	}
+	return x
 }
 
 func solve2(coeff []float64) []float64 {
